@@ -1,4 +1,5 @@
 import CsVerif.Lemmas.C01
+import CsVerif.Model.C08
 /-! C01 — Beacon configuration extraction is exact and complete: property theorems.
 
 Model: `Model/C01.lean` (`fromFile` = `BeaconConfig.from_file/from_bytes/from_path`, `iterConfigBlocks`,
@@ -349,6 +350,314 @@ theorem entry_point_independent (B : Nat) (hB : 1 ≤ B) (f g : PyFile) (hd : f.
     (allKeys : Bool) (det : Option Nat) (hdet : DetOk f.data det) (left : List Bytes) (guard : Option Result) :
     fromFile B f ks allKeys det left guard = fromFile B g ks allKeys det left guard := by
   rw [extract_eq_spec B hB f ks allKeys det hdet, extract_eq_spec B hB g ks allKeys det (hd ▸ hdet), hd]
+
+/-! ### end to end: detector, residual key order and Guardrails fallback discharged
+
+The theorems above take the detector's answer `det`, the residual key order `left` and the Guardrails outcome `guard` as
+parameters.  `fromFileReal` (Model/C01.lean, run by the driver on the `ext` stream) computes all three: `detectRun` (= C09's
+`fromFileReal`, `detectRun_real`), `leftKeys`, `C17.fromFileFallback`.  The theorems of this section are about that function
+and their hypotheses speak about the bytes of the payload only:
+  * "not detected as XorEncoded" is `∀ c ∈ C09.realCandidates B f 1024, C09.mzVerdict f c = false` (by C09
+    `detect_rejects_real` exactly: the detector raises ValueError), or — `…_bytes` variants — `NotXorEncoded f`: every offset
+    behind an `ff ff ff` in the first 2 KiB or satisfying the size relation (C09 `real_candidates_characterised`) decodes to
+    something that fails the MZ check; `notXorEncoded_of_no_candidate` gives a condition without `mzVerdict`;
+  * "is a XorEncoded stage" is the hypothesis set of C09 `detect_correct_real_clean`;
+  * "Guardrails finds nothing" is `GuardClean B v` (C17 `scan_reports_iff` / `NoMatch`), trivially true below 6138 bytes.
+What remains a parameter: nothing of the model.  The buffer size `B ≥ 1` is universally quantified (the detector's
+answer may depend on it for `B < 1027`, C09 `detect_buffer_independent`, so it appears in the `realCandidates` form of the
+hypotheses; the `…_bytes` forms hold for every `B`). -/
+
+/-- `fromFileReal` is the parameterised `fromFile` of the theorems above with the detector's answer (characterised through
+`C09.fromFileReal`, and satisfying `DetOk`), the residual key order `leftKeys` computes, and `C17.fromFileFallback` on the
+decoded view (when detected) or the file as Guardrails outcome — so every theorem about `fromFile` is a theorem about what
+the driver runs. -/
+theorem fromFileReal_instantiates (B : Nat) (hB : 1 ≤ B) (f : PyFile) (ks : List Bytes) (allKeys : Bool) :
+    ∃ (det : Option Nat) (failPos : Nat) (left : List Bytes),
+      (match det with
+       | some c => ∃ x, C09.fromFileReal B f 1024 = .ok x ∧ x.nonceOff = c
+       | none => C09.fromFileReal B f 1024 = .error .valueError) ∧
+      DetOk f.data det ∧
+      leftKeys B f det failPos ks = .ok left ∧
+      fromFileReal B f ks allKeys =
+        match fromFile B f ks allKeys det left none with
+        | .ok r => .ok r.extracted
+        | .error _ => guardFallback B (fhFor f det) := by
+  obtain ⟨det, failPos, left, h1, h2, h3, h4⟩ := fromFileReal_spec B hB f ks allKeys
+  refine ⟨det, failPos, left, h1, h2, h3, ?_⟩
+  rw [h4, extract_eq_spec B hB f ks allKeys det h2]
+  unfold extractSpec searchSpec
+  cases (candidates (views f.data det) (effKeys ks)).head? with
+  | some c => rfl
+  | none =>
+    cases allKeys with
+    | false => rfl
+    | true =>
+      simp only [if_true]
+      cases (candidates (views f.data det) (effKeys left)).head? <;> rfl
+
+/-- the same as an equation with the declarative specification -/
+theorem fromFileReal_eq_spec (B : Nat) (hB : 1 ≤ B) (f : PyFile) (ks : List Bytes) (allKeys : Bool) :
+    ∃ (det : Option Nat) (failPos : Nat) (left : List Bytes),
+      (match det with
+       | some c => ∃ x, C09.fromFileReal B f 1024 = .ok x ∧ x.nonceOff = c
+       | none => C09.fromFileReal B f 1024 = .error .valueError) ∧
+      DetOk f.data det ∧
+      leftKeys B f det failPos ks = .ok left ∧
+      fromFileReal B f ks allKeys =
+        match searchSpec f.data ks allKeys det left with
+        | some c => .ok c.result.extracted
+        | none => guardFallback B (fhFor f det) :=
+  fromFileReal_spec B hB f ks allKeys
+
+/-- **Raw payload, end to end.**  A payload (any bytes, any file kind, any initial position, any buffer size) that is not
+detected as XorEncoded and contains `CONFIG_HEADER ⊕ k` at offset `i` for a tried key `k`, `(k, i)` being least in
+(key priority, offset) order: `from_file` returns `xor(data[i : i+4096], k)` as configuration block, `xorkey = k`,
+`xorencoded = False`, no Guardrails record; and if those bytes are a serialized well-formed settings list (terminator,
+padding) XORed with `k`, `settings_tuple` is that list.  `all_xor_keys` is irrelevant (the retry is not reached). -/
+theorem extract_raw_end_to_end (B : Nat) (hB : 1 ≤ B) (f : PyFile) (ks : List Bytes) (allKeys : Bool)
+    (hrej : ∀ c ∈ C09.realCandidates B f 1024, C09.mzVerdict f c = false)
+    (k : Bytes) (i : Nat) (hk : k ∈ effKeys ks) (hi : i ∈ occK f.data k)
+    (hleast : ∀ k' ∈ effKeys ks, ∀ i' ∈ occK f.data k',
+      (effKeys ks).idxOf k ≤ (effKeys ks).idxOf k' ∧ (k' = k → i ≤ i')) :
+    fromFileReal B f ks allKeys = .ok ⟨C20.xor ((f.data.drop i).take patchSize) k, k, false, none⟩ ∧
+    ∀ (ss : List C02.Setting) (tail : Bytes), C02.WellFormedList ss →
+      (f.data.drop i).take patchSize = C20.xor (C02.serialize ss ++ [0, 0] ++ tail) k →
+      (⟨C20.xor ((f.data.drop i).take patchSize) k, k, false, none⟩ : Extracted).settings = ss := by
+  constructor
+  · obtain ⟨det, failPos, left, hdet, _, _, heq⟩ := fromFileReal_spec B hB f ks allKeys
+    have hnone : det = none := by
+      cases det with
+      | none => rfl
+      | some c =>
+        obtain ⟨x, hx, _⟩ := hdet
+        rw [((C09.detect_rejects_real B f 1024).2).mpr hrej] at hx
+        cases hx
+    subst hnone
+    have hhead : (candidates (views f.data none) (effKeys ks)).head? = some ⟨false, f.data, k, i⟩ := by
+      rw [candidates_views]
+      exact candsIn_head_of_least false f.data (effKeys ks) k i hk hi hleast
+    rw [heq]
+    simp only [searchSpec, hhead]
+    rfl
+  · intro ss tail hw hblk
+    show C02.iterSettings (C20.xor ((f.data.drop i).take patchSize) k) = ss
+    rw [hblk, C20.xor_involutive]
+    exact (C02.parse_serialize ss hw tail).1
+
+/-- the same with the hypothesis on the detector read off the bytes, for every buffer size -/
+theorem extract_raw_end_to_end_bytes (B : Nat) (hB : 1 ≤ B) (f : PyFile) (ks : List Bytes) (allKeys : Bool)
+    (hne : NotXorEncoded f)
+    (k : Bytes) (i : Nat) (hk : k ∈ effKeys ks) (hi : i ∈ occK f.data k)
+    (hleast : ∀ k' ∈ effKeys ks, ∀ i' ∈ occK f.data k',
+      (effKeys ks).idxOf k ≤ (effKeys ks).idxOf k' ∧ (k' = k → i ≤ i')) :
+    fromFileReal B f ks allKeys = .ok ⟨C20.xor ((f.data.drop i).take patchSize) k, k, false, none⟩ :=
+  (extract_raw_end_to_end B hB f ks allKeys (notXorEncoded_rejects B hB f hne) k i hk hi hleast).1
+
+/-- **XorEncoded stage, end to end.**  A payload `stub ++ nonce ++ size ++ enc` whose decoded content
+`rollDecode nonce enc` starts with a PE image, under the byte-level cleanliness hypotheses of C09
+`detect_correct_real_clean` (stub ends with the marker or the size dword is right; no other `ff ff ff` in the first 2 KiB,
+no other size-consistent offset), and whose decoded content contains `CONFIG_HEADER ⊕ k` at offset `i`, `(k, i)` least in
+the DECODED view: `from_file` returns `xor(decoded[i : i+4096], k)`, `xorkey = k`, `xorencoded = True`.  There is no
+hypothesis about the raw bytes: candidates there (a decoy block in the stub, under a key of higher priority) are not
+looked at. -/
+theorem extract_xorencoded_end_to_end (B : Nat) (hB : 1 ≤ B) (stub nonce size enc : Bytes)
+    (hn : nonce.length = 4) (hs : size.length = 4)
+    (f : PyFile) (hd : f.data = stub ++ nonce ++ size ++ enc) (ks : List Bytes) (allKeys : Bool)
+    (hcand : (∃ s0, stub = s0 ++ C09.eofMarker ∧ stub.length ≤ 1024) ∨
+         (C09.u32 (C20.xor nonce size) + (stub.length : Int) + 8 = (f.data.length : Int) ∧ stub.length < 1024))
+    (e : Nat) (hpe : C09.PeHeaderAt0 (C09.rollDecode nonce enc) 1024 e)
+    (hmark : ∀ h ∈ C15.occ f.data C09.eofMarker, h ≤ 2 * 1024 → h + 3 = stub.length)
+    (hsize : ∀ c, c < 1024 → C09.SizeRel f.data (f.data.length : Int) c → c = stub.length)
+    (k : Bytes) (i : Nat) (hk : k ∈ effKeys ks) (hi : i ∈ occK (C09.rollDecode nonce enc) k)
+    (hleast : ∀ k' ∈ effKeys ks, ∀ i' ∈ occK (C09.rollDecode nonce enc) k',
+      (effKeys ks).idxOf k ≤ (effKeys ks).idxOf k' ∧ (k' = k → i ≤ i')) :
+    fromFileReal B f ks allKeys
+      = .ok ⟨C20.xor (((C09.rollDecode nonce enc).drop i).take patchSize) k, k, true, none⟩ ∧
+    ∀ (ss : List C02.Setting) (tail : Bytes), C02.WellFormedList ss →
+      ((C09.rollDecode nonce enc).drop i).take patchSize = C20.xor (C02.serialize ss ++ [0, 0] ++ tail) k →
+      (⟨C20.xor (((C09.rollDecode nonce enc).drop i).take patchSize) k, k, true, none⟩ : Extracted).settings = ss := by
+  constructor
+  · obtain ⟨det, failPos, left, hdet, _, _, heq⟩ := fromFileReal_spec B hB f ks allKeys
+    obtain ⟨x, hx, hL, _, _⟩ := C09.detect_correct_real_clean B hB stub nonce size enc hn hs f hd 1024 (by omega)
+      hcand e hpe hmark hsize
+    have hsome : det = some stub.length := by
+      cases det with
+      | none => rw [hx] at hdet; cases hdet
+      | some c =>
+        obtain ⟨x', hx', hc⟩ := hdet
+        rw [hx] at hx'
+        injection hx' with hx'
+        subst hx'
+        rw [← hc, hL.off]
+    subst hsome
+    have hview : decodedView f.data stub.length = C09.rollDecode nonce enc := by
+      rw [hd]; exact decodedView_layout stub nonce size enc hn hs
+    have hhead : (candidates (views f.data (some stub.length)) (effKeys ks)).head?
+        = some ⟨true, C09.rollDecode nonce enc, k, i⟩ := by
+      rw [candidates_views]
+      simp only [hview]
+      have := candsIn_head_of_least true (C09.rollDecode nonce enc) (effKeys ks) k i hk hi hleast
+      cases hc : candsIn true (C09.rollDecode nonce enc) (effKeys ks) with
+      | nil => rw [hc] at this; cases this
+      | cons a as => rw [hc] at this; exact this
+    rw [heq]
+    simp only [searchSpec, hhead]
+    rfl
+  · intro ss tail hw hblk
+    show C02.iterSettings (C20.xor (((C09.rollDecode nonce enc).drop i).take patchSize) k) = ss
+    rw [hblk, C20.xor_involutive]
+    exact (C02.parse_serialize ss hw tail).1
+
+theorem effKeys_left_mem (B : Nat) (f : PyFile) (det : Option Nat) (failPos : Nat) (ks left : List Bytes)
+    (h : leftKeys B f det failPos ks = .ok left) (k : Bytes) (hk : k ∈ effKeys left) :
+    k ∈ makeByteList [] ++ defaultXorKeys := by
+  unfold effKeys at hk
+  split at hk
+  · exact List.mem_append_right _ hk
+  · exact List.mem_append_left _ (leftKeys_mem B f det failPos ks left h k hk)
+
+theorem searchSpec_none (data : Bytes) (ks : List Bytes) (allKeys : Bool) (det : Option Nat) (left : List Bytes)
+    (h1 : candidates (views data det) (effKeys ks) = [])
+    (h2 : allKeys = true → candidates (views data det) (effKeys left) = []) :
+    searchSpec data ks allKeys det left = none := by
+  unfold searchSpec
+  rw [h1]
+  cases allKeys with
+  | false => rfl
+  | true => rw [h2 rfl]; rfl
+
+/-- **Nothing to extract, end to end.**  No `CONFIG_HEADER ⊕ k` under a tried key in the file itself nor in the decoded
+view of any detector candidate that passes the MZ check (whichever the detector settles on); in all-keys mode the same for
+all 256 single-byte keys (and the defaults, which the retry falls back to when the residual list is empty); and the
+Guardrails scan of the view the fallback looks at cannot complete a record: `from_file` raises the documented `ValueError`. -/
+theorem extract_none_end_to_end (B : Nat) (hB : 1 ≤ B) (f : PyFile) (ks : List Bytes) (allKeys : Bool)
+    (hraw : ∀ k ∈ effKeys ks, occK f.data k = [])
+    (hdec : ∀ c ∈ C09.realCandidates B f 1024, C09.mzVerdict f c = true →
+      ∀ k ∈ effKeys ks, occK (decodedView f.data c) k = [])
+    (hall : allKeys = true → ∀ k ∈ makeByteList [] ++ defaultXorKeys,
+      occK f.data k = [] ∧
+      ∀ c ∈ C09.realCandidates B f 1024, C09.mzVerdict f c = true → occK (decodedView f.data c) k = [])
+    (hgraw : (∀ c ∈ C09.realCandidates B f 1024, C09.mzVerdict f c = false) → GuardClean B f.data)
+    (hgdec : ∀ c ∈ C09.realCandidates B f 1024, C09.mzVerdict f c = true → GuardClean B (decodedView f.data c)) :
+    fromFileReal B f ks allKeys = .error .valueError := by
+  obtain ⟨det, failPos, left, hdet, _, hleft, heq⟩ := fromFileReal_spec B hB f ks allKeys
+  have hlk := effKeys_left_mem B f det failPos ks left hleft
+  cases det with
+  | none =>
+    have hrej := ((C09.detect_rejects_real B f 1024).2).mp hdet
+    rw [heq, searchSpec_none]
+    · exact guardFallback_clean B f (hgraw hrej)
+    · rw [candidates_views]
+      exact candsIn_nil_of_noHeader false f.data _ hraw
+    · intro ha
+      rw [candidates_views]
+      exact candsIn_nil_of_noHeader false f.data _ (fun k hk => (hall ha k (hlk k hk)).1)
+  | some c =>
+    obtain ⟨x, hx, hc⟩ := hdet
+    obtain ⟨pre, post, x0, hsplit, _, hok, _⟩ := C09.detect_sound_real B f 1024 x hx
+    rw [hc] at hsplit hok
+    have hmem : c ∈ C09.realCandidates B f 1024 := by rw [hsplit]; simp
+    rw [heq, searchSpec_none]
+    · exact guardFallback_clean B (viewFile f c) (hgdec c hmem hok)
+    · rw [candidates_views]
+      simp only
+      rw [candsIn_nil_of_noHeader true _ _ (hdec c hmem hok), candsIn_nil_of_noHeader false f.data _ hraw]
+      rfl
+    · intro ha
+      rw [candidates_views]
+      simp only
+      rw [candsIn_nil_of_noHeader true _ _ (fun k hk => (hall ha k (hlk k hk)).2 c hmem hok),
+          candsIn_nil_of_noHeader false f.data _ (fun k hk => (hall ha k (hlk k hk)).1)]
+      rfl
+
+/-- **Guardrails-protected payload, end to end** (C17 `recover_from_file_partial`, under its own hypotheses): the payload
+`pre ++ masked configuration ++ masked guard configuration ++ post` is not detected as XorEncoded and has no plain
+candidate under the tried keys: `from_file` returns the recovered configuration `cfg`, `xorkey = 0x2e`,
+`xorencoded = False` and the Guardrails record (environmental key `K`, offsets, guard settings). -/
+open Gen.Guardrails C17 in
+theorem extract_guardrails_end_to_end (B : Nat) (hB : 1 ≤ B) (f : PyFile) (ks : List Bytes) (allKeys : Bool)
+    (pre post cfg K gc : Bytes)
+    (hcfg : cfg.length = BEACON_CONFIG_PATCH_SIZE) (hgc : gc.length = GUARD_PATCH_SIZE)
+    (h2 : 2 ≤ K.length) (h256 : K.length ≤ 256)
+    (hstart : gc.take 6 ∈ GUARD_CONFIG_STARTS)
+    (hstored : (settingsPure gc [] 0).2 = payloadChecksum cfg + 1)
+    (hdom : StrictlyMostCommon K (gramsOf B K.length (C20.xor cfg K)))
+    (hno : NoEarlierChecksumHit B (C20.xor cfg K) (payloadChecksum cfg + 1) K.length)
+    (hd : f.data = pre ++ C20.xor (C20.xor cfg K) beaconXorKey
+            ++ maskGuard gc defaultGuardXorKey (C20.xor (C20.xor cfg K) beaconXorKey) ++ post)
+    (hfirst : NoEarlierRecord B f.data (pre.length + (BEACON_CONFIG_PATCH_SIZE - 6)))
+    (hrej : ∀ c ∈ C09.realCandidates B f 1024, C09.mzVerdict f c = false)
+    (hraw : ∀ k ∈ effKeys ks, occK f.data k = [])
+    (hall : allKeys = true → ∀ k ∈ makeByteList [] ++ defaultXorKeys, occK f.data k = []) :
+    fromFileReal B f ks allKeys = .ok
+      { block := cfg, xorkey := beaconXorKey, xorencoded := false,
+        guardrails := some { areaMeta pre (C20.xor (C20.xor cfg K) beaconXorKey) gc defaultGuardXorKey with
+          beaconXorKey := beaconXorKey, payloadXorKey := some K, unmaskedBeaconConfig := some cfg } } := by
+  obtain ⟨det, failPos, left, hdet, _, hleft, heq⟩ := fromFileReal_spec B hB f ks allKeys
+  have hlk := effKeys_left_mem B f det failPos ks left hleft
+  have hnone : det = none := by
+    cases det with
+    | none => rfl
+    | some c =>
+      obtain ⟨x, hx, _⟩ := hdet
+      rw [((C09.detect_rejects_real B f 1024).2).mpr hrej] at hx
+      cases hx
+  subst hnone
+  rw [heq, searchSpec_none]
+  · simp only [fhFor, guardFallback]
+    rw [fromFileFallback_data f (PyFile.ofBytes f.data) rfl]
+    rw [hd] at hfirst ⊢
+    rw [recover_from_file_partial B pre post cfg K gc hcfg hgc h2 h256 hstart hstored hdom hno hfirst]
+  · rw [candidates_views]
+    exact candsIn_nil_of_noHeader false f.data _ hraw
+  · intro ha
+    rw [candidates_views]
+    exact candsIn_nil_of_noHeader false f.data _ (fun k hk => hall ha k (hlk k hk))
+
+/-! #### the same composition in C08 -/
+
+/-- the file object `from_file` hands to `pe.find_compile_stamps` / `pe.find_architecture` (C18; not part of this property):
+the XorEncoded view for a block found in it and for a Guardrails recovery, otherwise `fobj` -/
+def peSource (B : Nat) (f : PyFile) (x : Extracted) : PyFile :=
+  match detectRun B f with
+  | .ok (dx, _) => if x.xorencoded || x.guardrails.isSome then fhFor f (dx.map (·.nonceOff)) else f
+  | .error _ => f
+
+/-- `C08.fromFile` (the composition used for "only ValueError") is `fromFileReal` followed by C08's `finish` — settings
+decoding as an `Except` and the PE artifacts, both proved total in `Lemmas/C08.lean` (`finish_ok`), which copies block, key
+and flags unchanged.  (`Lemmas/C08.lean` imports this file, so the statement lives here, over `Model/C08.lean` only.) -/
+theorem fromFile_C08_factors (B : Nat) (f : PyFile) (ks : List Bytes) (allKeys : Bool) :
+    C08.fromFile B f ks allKeys =
+      match fromFileReal B f ks allKeys with
+      | .error e => .error e
+      | .ok x => C08.finish x.guardrails.isSome x.xorkey x.xorencoded x.block (peSource B f x) := by
+  unfold C08.fromFile fromFileReal peSource
+  cases hd : detectRun B f with
+  | error e => rfl
+  | ok p =>
+    obtain ⟨dx, fFail⟩ := p
+    simp only
+    have hs : C08.search B f ks allKeys (dx.map (·.nonceOff)) fFail.pos
+        = search B f ks allKeys (dx.map (·.nonceOff)) fFail.pos := rfl
+    rw [hs]
+    cases search B f ks allKeys (dx.map (·.nonceOff)) fFail.pos with
+    | error e => rfl
+    | ok o =>
+      cases o with
+      | some y =>
+        simp only [Result.extracted, Option.isSome_none, Bool.or_false]
+        rfl
+      | none =>
+        simp only [guardFallback]
+        have hf : C08.fhFor f (dx.map (·.nonceOff)) = fhFor f (dx.map (·.nonceOff)) := rfl
+        rw [hf]
+        cases C17.fromFileFallback (fhFor f (dx.map (·.nonceOff))) B with
+        | error e => rfl
+        | ok m =>
+          simp only
+          cases m.unmaskedBeaconConfig with
+          | none => rfl
+          | some cfg => simp only [Option.isSome_some, Bool.or_true, if_true]
 
 /-! ### the hypotheses are satisfiable / concrete instances -/
 
